@@ -156,6 +156,8 @@ class TypeGen:
         if k == "literal":
             return self.literal(props)
         if k == "paren":
+            if r.chance(0.2):
+                return "Omit<%s, never>" % self.encode(props, depth + 1, allow_after)      # omit nothing
             return "(%s)" % self.encode(props, depth + 1, allow_after)
         if k in ("alias", "exported"):
             n = self.fresh("A")
@@ -241,6 +243,8 @@ class TypeGen:
                 allp = extra + props
             keys = [p.name for p in (props if k == "Pick" else extra)]
             ku = " | ".join("'%s'" % x for x in keys) if keys else "never"
+            if r.chance(0.1):
+                ku += " | never"       # `never` adds no key
             if r.chance(0.3) and keys:
                 kn = self.fresh("K")
                 self.place("type %s = %s;" % (kn, ku), allow_after)
